@@ -10,6 +10,7 @@ import (
 	"os/exec"
 	"strings"
 	"sync"
+	"syscall"
 	"time"
 
 	lua "github.com/yuin/gopher-lua"
@@ -22,7 +23,10 @@ func newRand(seed uint64) *lib.Rand { return lib.NewRand(seed) }
 
 const header = "From GL Require Import Ctx.CancelModel Ctx.CancelCases.\nFrom Coq Require Import List ZArith.\nImport ListNotations."
 
-var childTimeout = 45 * time.Second
+// A hung script spins: the child is limited in CPU seconds (RLIMIT_CPU, robust against a loaded
+// machine); the wall-clock limit is only a backstop for a child that sleeps.
+var childCPU = 60
+var childTimeout = 15 * time.Minute
 
 // runRaw executes this binary with a sub-command in a child process; a crash or a hang is reported,
 // not propagated.
@@ -34,10 +38,10 @@ func runRaw(sub string, in []byte, limit time.Duration) ([]byte, string) {
 	var out, errb bytes.Buffer
 	cmd.Stdout = &out
 	cmd.Stderr = &errb
-	cmd.Env = append(os.Environ(), "GOMEMLIMIT=2GiB")
+	cmd.Env = append(os.Environ(), "GOMEMLIMIT=2GiB", fmt.Sprintf("VERIF_CPU_LIMIT=%d", childCPU))
 	err := cmd.Run()
-	if ctx.Err() != nil {
-		return nil, "hang: the child running this program did not finish within the time limit (a script kept running or stayed blocked after cancellation)"
+	if ctx.Err() != nil || (err != nil && cmd.ProcessState != nil && strings.Contains(cmd.ProcessState.String(), "signal:")) && childHitCPULimit(cmd) {
+		return nil, "hang: the child running this program did not finish within the CPU/time limit (a script kept running or stayed blocked after cancellation)"
 	}
 	if err != nil {
 		msg := errb.String()
@@ -47,6 +51,20 @@ func runRaw(sub string, in []byte, limit time.Duration) ([]byte, string) {
 		return nil, "crash of the child process: " + err.Error() + ": " + msg
 	}
 	return out.Bytes(), ""
+}
+
+func childHitCPULimit(cmd *exec.Cmd) bool {
+	ps := cmd.ProcessState
+	return ps != nil && int(ps.UserTime().Seconds()+ps.SystemTime().Seconds()) >= childCPU-2
+}
+
+// limitCPU is called first thing in a child.
+func limitCPU() {
+	var n uint64
+	fmt.Sscan(os.Getenv("VERIF_CPU_LIMIT"), &n)
+	if n > 0 {
+		syscall.Setrlimit(syscall.RLIMIT_CPU, &syscall.Rlimit{Cur: n, Max: n + 2})
+	}
 }
 
 func runChild(j job) (jobResult, string) {
@@ -242,10 +260,12 @@ func runJobs(w *lib.Writer, jobs []job) {
 
 func main() {
 	if len(os.Args) >= 2 && os.Args[1] == "child" {
+		limitCPU()
 		childMain()
 		return
 	}
 	if len(os.Args) >= 2 && os.Args[1] == "blockchild" {
+		limitCPU()
 		blockChildMain()
 		return
 	}
@@ -263,7 +283,8 @@ func main() {
 		"final error, emit trace vs the context-free run; blocked channel operations are cancelled from another goroutine once the script goroutine is parked; " +
 		"non-trivial = the firing poll finds a protected call, coroutine boundary or Go library frame on the stack, or call depth >= 3; distinct by Gallina term"
 	if a.Tier == "thorough" {
-		childTimeout = 240 * time.Second
+		childCPU = 400
+		childTimeout = 40 * time.Minute
 	}
 	if a.Replay != "" {
 		replay(w, a.Replay)
